@@ -425,6 +425,171 @@ def rewrite_str_match(body, stats):
     return out
 
 
+def split_top_commas(text):
+    parts, depth, cur, i = [], 0, [], 0
+    while i < len(text):
+        k = skip_noncode(text, i)
+        if k is not None:
+            cur.append(text[i:k]); i = k; continue
+        c = text[i]
+        if c in '([{':
+            depth += 1
+        elif c in ')]}':
+            depth -= 1
+        elif c == '<' and re.match(r'[\w:]', text[i - 1:i] or ' '):
+            pass
+        if c == ',' and depth == 0:
+            parts.append(''.join(cur)); cur = []
+        else:
+            cur.append(c)
+        i += 1
+    if ''.join(cur).strip():
+        parts.append(''.join(cur))
+    return [p.strip() for p in parts]
+
+
+def guard_clauses_to_else(block):
+    """`{ a; if c { return X; } b; t }` -> `{ a; if c { X } else { b; t } }` for guard clauses at the top level of the block (an `if` without
+    `else` whose block is a single `return`): the same control flow without an early return. Applied repeatedly; anything else is left."""
+    assert block[0] == '{' and block.rstrip()[-1] == '}'
+    inner_end = len(block.rstrip()) - 1
+    for _ in range(12):
+        found = None
+        depth, i = 0, 1
+        while i < inner_end:
+            k = skip_noncode(block, i)
+            if k is not None:
+                i = k; continue
+            c = block[i]
+            if c in '([{':
+                depth += 1
+            elif c in ')]}':
+                depth -= 1
+            elif depth == 0 and block.startswith('if', i) and not (block[i - 1].isalnum() or block[i - 1] == '_') and not (block[i + 2].isalnum() or block[i + 2] == '_'):
+                # statement position? previous non-space char must be ';' or '}' or '{'
+                j = i - 1
+                while j > 0 and block[j].isspace():
+                    j -= 1
+                if block[j] in ';}{':
+                    # find the `{` of the if-block at paren depth 0
+                    q, pd = i + 2, 0
+                    while q < inner_end:
+                        k2 = skip_noncode(block, q)
+                        if k2 is not None:
+                            q = k2; continue
+                        if block[q] in '([':
+                            pd += 1
+                        elif block[q] in ')]':
+                            pd -= 1
+                        elif block[q] == '{' and pd == 0:
+                            break
+                        q += 1
+                    if q < inner_end:
+                        e = match_close(block, q)
+                        blk = block[q + 1:e].strip()
+                        rest = block[e + 1:inner_end]
+                        mret = re.fullmatch(r'return\s+(.*?);?', strip_comments(blk).strip(), re.S)
+                        if mret and not rest.lstrip().startswith('else') and 'return' not in mret.group(1):
+                            found = (q, e, mret.group(1).strip())
+                            break
+            i += 1
+        if not found:
+            break
+        q, e, val = found
+        rest = block[e + 1:inner_end]
+        block = block[:q] + '{ ' + val + ' } else ' + guard_clauses_to_else('{' + rest + '}') + ' }'
+        break
+    return block
+
+
+def inline_helper(unit, rel, body, helper):
+    """R18: a free function that the contracted function calls but that is not under contract (typically a helper a change introduced)
+    is INLINED at its call sites: `h(a, b)` becomes `{ let __h_0: T0 = a; let __h_1: T1 = b; { let p0: T0 = __h_0; let p1: T1 = __h_1; <body of h> } }`.
+    Only when that is the same computation: h is a plain (non-generic, no `self`) function found exactly once in the crate's sources, its
+    body holds no `return`, and if it holds a `?` every call site is itself followed by `?` (so an error leaves the caller either way).
+    Anything else raises AssembleError and the caller falls back to treating the function as outside the subset."""
+    # locate the helper: same file first, then the other files of the same source directory, then the shared packages
+    cands = [rel]
+    d = os.path.dirname(rel)
+    for f in sorted(os.listdir(os.path.join(unit.repo, d))):
+        if f.endswith('.rs') and os.path.join(d, f) not in cands:
+            cands.append(os.path.join(d, f))
+    for pk in ('packages/margined_common/src', 'packages/margined_perp/src'):
+        pd_ = os.path.join(unit.repo, pk)
+        if os.path.isdir(pd_):
+            for f in sorted(os.listdir(pd_)):
+                if f.endswith('.rs'):
+                    cands.append(os.path.join(pk, f))
+    found = None
+    for c in cands:
+        try:
+            src = unit.read_repo(c)
+            ls, bo, be = find_fn(src, helper)
+            found = (c, src, ls, bo, be)
+            break
+        except AssembleError:
+            continue
+    if not found:
+        raise AssembleError('inline %s: no unique definition found' % helper)
+    c, src, ls, bo, be = found
+    sig = src[ls:bo]
+    hbody = src[bo:be + 1]
+    m = re.search(r'\bfn\s+' + re.escape(helper) + r'\s*(<[^>]*>)?\s*\(', sig)
+    if not m or m.group(1):
+        raise AssembleError('inline %s: generic function' % helper)
+    po = sig.index('(', m.start())
+    pc = match_close(sig, po, '(', ')')
+    params = split_top_commas(sig[po + 1:pc])
+    if any(re.match(r'(&\s*(mut\s+)?)?self\b', p_) for p_ in params):
+        raise AssembleError('inline %s: method' % helper)
+    plist = []
+    for p_ in params:
+        pm = re.match(r'(mut\s+)?(\w+)\s*:\s*(.+)$', p_, re.S)
+        if not pm or 'impl ' in pm.group(3):
+            raise AssembleError('inline %s: parameter %r' % (helper, p_))
+        plist.append((pm.group(1) or '', pm.group(2), norm_ws(pm.group(3))))
+    hbody = guard_clauses_to_else(strip_comments(hbody))
+    code = strip_comments(hbody)
+    mret_ = re.search(r'\)\s*->\s*(.+?)\s*(?:where\b.*)?$', sig.strip(), re.S)
+    ret_ty = norm_ws(mret_.group(1)) if mret_ else '()'
+    if re.search(r'\breturn\b', code):
+        raise AssembleError('inline %s: the helper has an early return' % helper)
+    if re.search(r'\b(loop|while|for)\b', code):
+        raise AssembleError('inline %s: the helper has a loop' % helper)
+    if re.search(r'(?<![\w])' + re.escape(helper) + r'\s*\(', code):
+        raise AssembleError('inline %s: recursive' % helper)
+    has_q = '?' in code
+    out, pos, n = [], 0, 0
+    sites = list(code_positions(body, r'(?<![\w.:])' + re.escape(helper) + r'\s*\('))
+    if not sites:
+        raise AssembleError('inline %s: no call site' % helper)
+    for sm in sites:
+        if sm.start() < pos:
+            raise AssembleError('inline %s: nested call sites' % helper)
+        ao = sm.end() - 1
+        ac = match_close(body, ao, '(', ')')
+        args = split_top_commas(body[ao + 1:ac])
+        if len(args) != len(plist):
+            raise AssembleError('inline %s: %d arguments for %d parameters' % (helper, len(args), len(plist)))
+        after = body[ac + 1:].lstrip()
+        # `?` inside the helper leaves the CALLER once inlined: the same outcome only where the caller passes the helper's error on anyway,
+        # i.e. the call is followed by `?` or is the caller's own result (tail expression / `return h(..)`)
+        is_tail = after == '}' or re.search(r'\breturn\s*$', body[:sm.start()]) is not None
+        if has_q and not (after.startswith('?') or is_tail):
+            raise AssembleError('inline %s: the helper uses `?` and a call site is not followed by `?`' % helper)
+        pre = ' '.join('let __%s_%d_%d: %s = %s;' % (helper, n, k, t, a) for k, ((mu, nm, t), a) in enumerate(zip(plist, args)))
+        inner = ' '.join('let %s%s: %s = __%s_%d_%d;' % (mu, nm, t, helper, n, k) for k, (mu, nm, t) in enumerate(plist))
+        out.append(body[pos:sm.start()])
+        # (the result gets the helper's declared return type, as the call expression had)
+        out.append('{ let __%s_%d_r: %s = { %s { %s %s } }; __%s_%d_r }' % (helper, n, ret_ty, pre, inner, hbody, helper, n))
+        pos = ac + 1
+        n += 1
+    out.append(body[pos:])
+    unit.stats['R18_inlined_helper'] = unit.stats.get('R18_inlined_helper', 0) + n
+    unit.inlined.setdefault(helper, []).append('%s (%s:%d)' % (helper, c, line_of(src, ls)))
+    return ''.join(out)
+
+
 def find_loops(body):
     """Offsets (start of keyword, offset of '{' that opens the loop body) of loops in order."""
     res = []
@@ -473,6 +638,8 @@ class Unit:
         self.stub = set()      # functions to emit as assumed contracts (degraded mode, DESIGN 13.6)
         self.stubbed = {}      # name -> reason
         self.skipped = []      # total mode: functions emitted as their contract alone (not flagged np)
+        self.inline = {}       # function name -> helper names to inline at their call sites (R18)
+        self.inlined = {}      # helper -> where it was taken from
 
     def read_repo(self, rel):
         p = os.path.join(self.repo, rel)
@@ -769,8 +936,16 @@ def process_fn(unit, lines, i, arg, rel_tpl):
     for mm in list(re.finditer(r'[(,]\s*(?:mut\s+)?_([A-Za-z]\w*)\s*:', sig)):
         bare = mm.group(1)
         # (occurrences in comments do not count: "the output is positive" must not keep `_output` from being named `output`)
-        if re.search(r'(?<![\w])' + bare + r'(?![\w])', sig) or re.search(r'(?<![\w])' + bare + r'(?![\w])', strip_comments(body)):
+        if re.search(r'(?<![\w])' + bare + r'(?![\w])', sig):
             continue
+        code_ = strip_comments(body)
+        occ_ = [m_.start() for m_ in re.finditer(r'(?<![\w])' + bare + r'(?![\w])', code_)]
+        if occ_:
+            # the body may introduce a LOCAL of that name (`let output = ..`): it shadows the parameter from there on, so naming the unused
+            # parameter `output` changes nothing - provided every use of the name comes after such a binding
+            bind_ = re.search(r'\blet\s+(?:mut\s+)?' + bare + r'(?![\w])', code_)
+            if not bind_ or occ_[0] < bind_.start():
+                continue
         sig = tokens_rename(sig, {'_' + bare: bare}, {})
         body = tokens_rename(body, {'_' + bare: bare}, {})
         st['R15_underscore_param'] = st.get('R15_underscore_param', 0) + 1
@@ -813,6 +988,8 @@ def process_fn(unit, lines, i, arg, rel_tpl):
                   raise AssembleError('fn %s: //@sub anchor %r matched %d times' % (name, old, len(ms)))
               body = body[:ms[0].start()] + new + body[ms[0].end():]
               st['Rsub_declared'] = st.get('Rsub_declared', 0) + 1
+          for helper_ in sorted(unit.inline.get(newname or name, [])):
+              body = inline_helper(unit, rel, body, helper_)
           body = rewrite_body(body, 'total' if total else mode, st)
           # a closure's result is opaque to the verifier (no inferred ensures): a proof through one fails for no semantic reason, so a
           # body that still holds one after the declared rewrites is outside the subset (degraded mode), never a violation
@@ -919,11 +1096,12 @@ def emit_chunk(unit, chunk, rel, src, src_off):
         unit.out.append((ln, '%s:%d' % (rel, base + k)))
 
 
-def assemble(unit_name, repo='/repo', mode='partial', outdir=None, stub=None):
+def assemble(unit_name, repo='/repo', mode='partial', outdir=None, stub=None, inline=None):
     outdir = outdir or os.path.join(VERIF, 'build')
     os.makedirs(outdir, exist_ok=True)
     unit = Unit(unit_name, repo, mode)
     unit.stub = set(stub or [])
+    unit.inline = {k: set(v) for k, v in (inline or {}).items()}
     tpl = os.path.join(VERIF, 'specs', unit_name + '.vrs')
     header = ('#![allow(unused_imports, dead_code, unused_variables, unused_mut, unused_assignments, non_snake_case, unreachable_code, unused_parens, non_upper_case_globals)]\n'
               '#![verifier::allow(autoderive_clone_without_spec)]\n'
@@ -949,7 +1127,7 @@ def assemble(unit_name, repo='/repo', mode='partial', outdir=None, stub=None):
     h.update(mode.encode())
     meta = {'unit': unit_name, 'mode': mode, 'file': out_rs, 'origins': [o for _, o in unit.out],
             'functions': unit.functions, 'labels': unit.labels, 'theorems': unit.theorems,
-            'stubbed': unit.stubbed, 'skipped_total': unit.skipped, 'extraction': unit.stats, 'inputs': sorted(set(unit.inputs)), 'hash': h.hexdigest()}
+            'stubbed': unit.stubbed, 'skipped_total': unit.skipped, 'inlined': unit.inlined, 'extraction': unit.stats, 'inputs': sorted(set(unit.inputs)), 'hash': h.hexdigest()}
     with open(os.path.join(outdir, unit_name + suffix + '.map.json'), 'w') as f:
         json.dump(meta, f)
     return meta
